@@ -60,8 +60,7 @@ def run(c):
                     w2 = dict(p.split("=", 1) for p in a2.split(" ")[1:] if "=" in p).get("w2")
                     if w2 and w2 not in ("n/a", "panic", "werr"):
                         enc.append(("2", w2))
-                # JSON texts with escapes are left to C05 (known finding there: escaped dictionary keys are not unescaped on read)
-                if aj.startswith("ok ") and len(aj.split(" ")) > 1 and aj.split(" ")[1] != "-" and "5c" not in [aj.split(" ")[1][i:i + 2] for i in range(0, len(aj.split(" ")[1]), 2)]:
+                if aj.startswith("ok ") and len(aj.split(" ")) > 1 and aj.split(" ")[1] != "-":
                     enc.append(("j", aj.split(" ")[1]))
                 pool.setdefault(inst["idx"], (inst, []))[1].extend(enc)
             mixed = []
